@@ -86,6 +86,34 @@ type world struct {
 	views  []*handle
 	ghosts []*handle // frozen handles that were dropped from vars/views; still watched
 	nextID int
+	marked []any // every node that was ever stored by reference or shared by a shallow copy
+}
+
+func (w *world) markAlias(m *mMsg) {
+	if !m.sharedAlias && !m.sharedCopy {
+		w.marked = append(w.marked, m)
+	}
+	m.sharedAlias = true
+}
+
+func (w *world) markCopy(n any) {
+	switch n := n.(type) {
+	case *mMsg:
+		if !n.sharedAlias && !n.sharedCopy {
+			w.marked = append(w.marked, n)
+		}
+		n.sharedCopy = true
+	case *mList:
+		if !n.sharedCopy {
+			w.marked = append(w.marked, n)
+		}
+		n.sharedCopy = true
+	case *mMap:
+		if !n.sharedCopy {
+			w.marked = append(w.marked, n)
+		}
+		n.sharedCopy = true
+	}
 }
 
 const maxViews = 8
@@ -187,6 +215,16 @@ func (w *world) clone() *world {
 	}
 	for _, h := range w.ghosts {
 		c.ghosts = append(c.ghosts, ch(h))
+	}
+	for _, n := range w.marked {
+		switch n := n.(type) {
+		case *mMsg:
+			c.marked = append(c.marked, cm(n))
+		case *mList:
+			c.marked = append(c.marked, cl(n))
+		case *mMap:
+			c.marked = append(c.marked, cp(n))
+		}
 	}
 	return c
 }
@@ -654,7 +692,7 @@ func (c *mctx) convertElem(fd protoreflect.FieldDescriptor, d dyn) (mElem, error
 			if d.msg.md != fd.Message() {
 				return mElem{}, mfail("message of type %s for a %s slot", d.msg.md.FullName(), fd.Message().FullName())
 			}
-			d.msg.sharedAlias = true // stored by reference
+			c.w.markAlias(d.msg) // stored by reference
 			return mElem{msg: d.msg}, nil
 		case cDict:
 			n := c.w.newMsg(fd.Message())
@@ -851,13 +889,13 @@ func (c *mctx) shallowCopy(md protoreflect.MessageDescriptor, src *mMsg) (*mMsg,
 		}
 		n.known[fd.Number()] = &mSlot{sc: s.sc, msg: s.msg, list: s.list, mp: s.mp}
 		if s.msg != nil {
-			s.msg.sharedCopy = true
+			c.w.markCopy(s.msg)
 		}
 		if s.list != nil {
-			s.list.sharedCopy = true
+			c.w.markCopy(s.list)
 		}
 		if s.mp != nil {
-			s.mp.sharedCopy = true
+			c.w.markCopy(s.mp)
 		}
 	}
 	return n, nil
